@@ -43,6 +43,9 @@ def run(ck: Check, repo: Repo) -> None:
     ck.rule("C14.7", "IPPO: the masks of the agents sharing a policy are collected per agent in observation order and combined on a new LEADING axis "
                      "(agent-major, like the concatenated observations), so that mask.view(logits.shape) pairs every row of logits with the mask of the same agent and environment")
     _ippo_masks(ck, repo)
+    ck.rule("C14.8", "IPPO: the Box used to bring a group's evaluation-mode action into bounds is the action space of a member of THAT group "
+                     "(looked up through the group id of the loop that produced the action), not one addressed by the loop's position")
+    _ippo_clip_space(ck, repo)
     n_arg = 0
     for modname, q, mask in DISCRETE:
         n_arg += _discrete(ck, repo, repo.fn(modname, q), mask)
@@ -234,6 +237,48 @@ def _ippo_masks(ck: Check, repo: Repo, rule: str = "C14.7") -> None:
           construct="apply_mask view")
 
 
+# ------------------------------------------------------------------------------------------------ C14.8
+def _ippo_clip_space(ck: Check, repo: Repo) -> None:
+    fn = repo.fn("agilerl.algorithms.ippo", "IPPO.get_action")
+    cfg = CFG(fn.node)
+    clips = [c for c in calls_in(fn.node) if call_name(c) in ("np.clip", "numpy.clip") and len(c.args) == 3 and dotted(c.args[1]).endswith(".low")]
+    ck.floor("C14.8", len(clips), 1, "evaluation-mode clip in IPPO.get_action", fn=fn)
+    for c in clips:
+        node = cfg.node_of(c)
+        sp = dotted(c.args[1])[:-4]
+        ok, why = False, f"space = {sp}"
+        # the group loop: for <pos>, (<group id>, ...) in enumerate(zip(<group ids>, ...)) enclosing the clip
+        loops = [l for l in walk_no_nested(fn.node) if isinstance(l, ast.For) and any(x is c for x in ast.walk(l))]
+        gid = None
+        for l in loops:
+            t = l.target
+            if isinstance(t, ast.Tuple) and len(t.elts) == 2 and isinstance(t.elts[1], ast.Tuple) and isinstance(t.elts[1].elts[0], ast.Name):
+                gid = t.elts[1].elts[0].id
+            elif isinstance(t, ast.Tuple) and isinstance(t.elts[0], ast.Name) and not (isinstance(l.iter, ast.Call) and call_name(l.iter) == "enumerate"):
+                gid = t.elts[0].id
+        if gid is not None and node is not None and isinstance(c.args[1].value, ast.Name):
+            vals = [cfg.value_of_def(d, sp) for d in cfg.defs_reaching(node, sp)]
+            okv = []
+            for v in vals:
+                # self.action_space[K] / .get(K) with K = self.homogeneous_agents[<group id>][i], or self.unique_action_spaces[<group id>]
+                key = v.slice if isinstance(v, ast.Subscript) else (v.args[0] if isinstance(v, ast.Call) and last_attr(v) == "get" and v.args else None)
+                holder = dotted(v.value) if isinstance(v, ast.Subscript) else (dotted(v.func.value) if isinstance(v, ast.Call) and isinstance(v.func, ast.Attribute) else "")
+                if key is None:
+                    okv.append(False)
+                    continue
+                kvals = [key]
+                if isinstance(key, ast.Name):
+                    kvals = [cfg.value_of_def(d, key.id) for d in cfg.defs_reaching(node, key.id)]
+                def from_group(k):
+                    txt = ast.unparse(k) if k is not None else ""
+                    return (holder == "self.unique_action_spaces" and txt == gid) or (holder == "self.action_space" and txt.startswith(f"self.homogeneous_agents[{gid}]["))
+                okv.append(bool(kvals) and all(from_group(k) for k in kvals))
+                why = f"space = {short(v, 60)}, key = {[short(k, 50) if k is not None else None for k in kvals]}, group id = {gid}"
+            ok = bool(okv) and all(okv)
+        ck.ob("C14.8", fn, c, ok, "IPPO.get_action: the clipping Box is the action space of a member of the group whose policy produced the action", detail=why,
+              construct="IPPO.get_action: space used for the evaluation-mode clip")
+
+
 # ------------------------------------------------------------------------------------------------ C14.6
 def _batch_measure(ck: Check, repo: Repo, fn: Fn) -> int:
     from ..domains import conjuncts
@@ -363,13 +408,33 @@ def _multi_continuous(ck: Check, repo: Repo, fn: Fn) -> None:
                 src = ast.unparse(v)
                 proj = _projection_depth(v)
                 attr = "min_action" if which == "lower" else "max_action"
-                ok = f"self.{attr}[" in src and proj <= 1
+                ok = f"self.{attr}[" in src and proj <= 1 and not _reduced(v, attr)
                 ck.ob("C14.2", fn, v, ok,
                       f"{label}: the {which} clamp bound is the agent's whole bound vector (no projection to its first component)",
                       detail=f"bound = {src[:80]}: for an action space with different bounds per dimension every dimension is clamped with the first one's bound",
                       construct=f"{label}: {which} bound {src[:80]}")
         # noise inside the clamp
         ck.ob("C14.2", fn, c, "action_noise" in ast.unparse(c.args[0]), f"{label}: the exploration noise is inside the clamp")
+
+
+_BOUND_WRAPPERS = {"torch.as_tensor", "torch.tensor", "torch.from_numpy", "np.asarray", "np.array", "torch.Tensor"}
+_BOUND_METHODS = {"to", "float", "clone", "detach", "cpu", "type", "double"}
+
+
+def _reduced(v: ast.AST, attr: str) -> bool:
+    """Is something other than a tensor conversion applied on top of self.<attr>[...] (a reduction over the action dimensions, a cast to a Python scalar)?"""
+    cur = v
+    while True:
+        if isinstance(cur, ast.Call) and call_name(cur) in _BOUND_WRAPPERS and cur.args:
+            cur = cur.args[0]
+        elif isinstance(cur, ast.Call) and isinstance(cur.func, ast.Attribute) and cur.func.attr in _BOUND_METHODS:
+            cur = cur.func.value
+        else:
+            break
+    base = cur
+    while isinstance(base, ast.Subscript):
+        base = base.value
+    return not (isinstance(base, ast.Attribute) and base.attr == attr and dotted(base.value) == "self")
 
 
 def _projection_depth(v: ast.AST) -> int:
@@ -498,6 +563,8 @@ _DD = "agilerl/algorithms/ddpg.py"
 _MA = "agilerl/algorithms/maddpg.py"
 _PP = "agilerl/algorithms/ppo.py"
 VARIANTS = [
+    ("matd3-clamp-bounds-reduced-to-scalars", "agilerl/algorithms/matd3.py", "                        torch.as_tensor(self.min_action[idx], device=actions.device),\n                        torch.as_tensor(self.max_action[idx], device=actions.device),", "                        float(self.min_action[idx].min()),\n                        float(self.max_action[idx].max()),", "fire", "C14.2"),
+    ("ippo-clip-space-by-loop-position", "agilerl/algorithms/ippo.py", "            agent_id = self.homogeneous_agents[shared_id][0]\n            agent_space = self.action_space[agent_id]", "            agent_space = self.action_space[self.agent_ids[idx]]", "fire", "C14.8"),
     ("dqn-mask-polarity", _DQ, "q_values.masked_fill((1 - action_mask).bool(), float(\"-inf\"))", "q_values.masked_fill(action_mask.bool(), float(\"-inf\"))", "fire", "C14.1"),
     ("dqn-mask-by-multiplication", _DQ, "masked_q_values = q_values.masked_fill((1 - action_mask).bool(), float(\"-inf\"))", "masked_q_values = q_values * action_mask", "fire", "C14.1"),
     ("dqn-random-unmasked", _DQ, "masked_random_values = torch.rand_like(q_values) * action_mask", "masked_random_values = torch.rand_like(q_values)", "fire", "C14.1"),
